@@ -2925,6 +2925,27 @@ func (p *Posix) PutObject(ctx context.Context, po s3response.PutObjectInput) (s3
 			return s3response.PutObjectOutput{}, fmt.Errorf("set content-type attr: %w", err)
 		}
 
+		// object lock settings given with the upload
+		if po.ObjectLockLegalHoldStatus == types.ObjectLockLegalHoldStatusOn {
+			err := p.PutObjectLegalHold(ctx, *po.Bucket, *po.Key, "", true)
+			if err != nil {
+				return s3response.PutObjectOutput{}, err
+			}
+		}
+		if po.ObjectLockMode != "" {
+			retParsed, err := json.Marshal(types.ObjectLockRetention{
+				Mode:            types.ObjectLockRetentionMode(po.ObjectLockMode),
+				RetainUntilDate: po.ObjectLockRetainUntilDate,
+			})
+			if err != nil {
+				return s3response.PutObjectOutput{}, fmt.Errorf("parse object lock retention: %w", err)
+			}
+			err = p.PutObjectRetention(ctx, *po.Bucket, *po.Key, "", true, retParsed)
+			if err != nil {
+				return s3response.PutObjectOutput{}, err
+			}
+		}
+
 		// for directory object no version is created
 		return s3response.PutObjectOutput{
 			ETag: emptyMD5,
@@ -4996,6 +5017,11 @@ func (p *Posix) PutObjectLegalHold(_ context.Context, bucket, object, versionId 
 		statusData = []byte{0}
 	}
 
+	if strings.HasSuffix(object, "/") {
+		// directory objects can't have versions: the id is ignored for
+		// them, as DeleteObject ignores it
+		versionId = ""
+	}
 	if versionId != "" {
 		if !p.versioningEnabled() {
 			//TODO: Maybe we need to return our custom error here?
@@ -5039,6 +5065,11 @@ func (p *Posix) GetObjectLegalHold(_ context.Context, bucket, object, versionId 
 		return nil, err
 	}
 
+	if strings.HasSuffix(object, "/") {
+		// directory objects can't have versions: the id is ignored for
+		// them, as DeleteObject ignores it
+		versionId = ""
+	}
 	if versionId != "" {
 		if !p.versioningEnabled() {
 			//TODO: Maybe we need to return our custom error here?
@@ -5087,6 +5118,11 @@ func (p *Posix) PutObjectRetention(_ context.Context, bucket, object, versionId 
 		return err
 	}
 
+	if strings.HasSuffix(object, "/") {
+		// directory objects can't have versions: the id is ignored for
+		// them, as DeleteObject ignores it
+		versionId = ""
+	}
 	if versionId != "" {
 		if !p.versioningEnabled() {
 			//TODO: Maybe we need to return our custom error here?
@@ -5159,6 +5195,11 @@ func (p *Posix) GetObjectRetention(_ context.Context, bucket, object, versionId 
 		return nil, err
 	}
 
+	if strings.HasSuffix(object, "/") {
+		// directory objects can't have versions: the id is ignored for
+		// them, as DeleteObject ignores it
+		versionId = ""
+	}
 	if versionId != "" {
 		if !p.versioningEnabled() {
 			//TODO: Maybe we need to return our custom error here?
